@@ -1,0 +1,266 @@
+//go:build verif
+
+package broadcast
+
+// Conformance-harness access to the receive side of the broadcast protocol (built only
+// with -tags verif). Nothing here changes behaviour: the handle calls the production
+// entry points (handleBroadcastReceive, the topic validators, decodeMsg) and lets the
+// harness replace the 200ms tickers of pendBlockLoop / blockRequestLoop by channels so
+// that the real loop goroutines run one iteration per harness-issued tick.
+
+import (
+	"context"
+	"encoding/hex"
+	"sync"
+	"sync/atomic"
+	"time"
+
+	"github.com/33cn/chain33/queue"
+	"github.com/33cn/chain33/system/p2p/dht/protocol"
+	"github.com/33cn/chain33/types"
+	ps "github.com/libp2p/go-libp2p-pubsub"
+	pspb "github.com/libp2p/go-libp2p-pubsub/pb"
+	"github.com/libp2p/go-libp2p/core/peer"
+)
+
+// names of the background loops whose ticker can be driven by the harness
+const (
+	VerifLoopPendBlock = "pendBlock"
+	VerifLoopBlockReq  = "blockReq"
+)
+
+var (
+	verifManualTicks int32
+	verifTickChans   sync.Map // verifTickKey -> chan time.Time
+	verifDoneChans   sync.Map // verifTickKey -> chan struct{}
+)
+
+type verifTickKey struct {
+	l    *ltBroadcast
+	name string
+}
+
+// verifLoopTicker is called by the loops right after creating their ticker.
+func verifLoopTicker(l *ltBroadcast, name string, t *time.Ticker) {
+	if atomic.LoadInt32(&verifManualTicks) == 0 {
+		return
+	}
+	ch := make(chan time.Time)
+	t.Stop()
+	t.C = ch
+	verifDoneChans.Store(verifTickKey{l, name}, make(chan struct{}))
+	verifTickChans.Store(verifTickKey{l, name}, ch)
+}
+
+// verifLoopDone is called by the loops at the end of an iteration: with a manual ticker
+// the loop reports the end of the iteration and waits until the harness has seen it.
+func verifLoopDone(l *ltBroadcast, name string) {
+	if v, ok := verifDoneChans.Load(verifTickKey{l, name}); ok {
+		select {
+		case v.(chan struct{}) <- struct{}{}:
+		case <-l.Ctx.Done():
+		}
+	}
+}
+
+// VerifHandle exposes unexported entry points of one broadcastProtocol instance.
+type VerifHandle struct {
+	p *broadcastProtocol
+}
+
+// VerifNew initialises the protocol exactly as InitProtocol does and returns a handle.
+// With manualTicks the two light-broadcast loops iterate only on Tick().
+func VerifNew(env *protocol.P2PEnv, manualTicks bool) *VerifHandle {
+	if manualTicks {
+		atomic.StoreInt32(&verifManualTicks, 1)
+	} else {
+		atomic.StoreInt32(&verifManualTicks, 0)
+	}
+	p := &broadcastProtocol{syncStatus: true}
+	p.init(env)
+	return &VerifHandle{p: p}
+}
+
+// Topics returns the pubsub topic names (tx, batchtx, block, ltblock) and the peer topic of id.
+func (h *VerifHandle) Topics(id peer.ID) (tx, batchTx, block, ltBlock, peerTopic string) {
+	return psTxTopic, psBatchTxTopic, psBlockTopic, psLtBlockTopic, h.p.getPeerTopic(id)
+}
+
+// VerifBlockReqMsgID / VerifBlockRespMsgID are the peer message ids.
+const (
+	VerifBlockReqMsgID  = blockReqMsgID
+	VerifBlockRespMsgID = blockRespMsgID
+)
+
+// Receive feeds a decoded message into the production receive entry point.
+func (h *VerifHandle) Receive(topic string, value types.Message, receiveFrom, publisher peer.ID) {
+	h.p.handleBroadcastReceive(subscribeMsg{topic: topic, value: value, receiveFrom: receiveFrom, publisher: publisher})
+}
+
+// ReceiveRaw takes the wire payload of a pubsub message through the topic's validator
+// (when validation is enabled) and then through the steps of handleSubMsg: decode, dispatch.
+// It returns the validation result (-1 when the topic has no validator) and whether decoding failed.
+func (h *VerifHandle) ReceiveRaw(topic string, raw []byte, receiveFrom, from peer.ID) (validation int, decodeFailed bool) {
+	validation = -1
+	msg := &ps.Message{Message: &pspb.Message{From: []byte(from), Data: raw, Topic: &topic}, ReceivedFrom: receiveFrom}
+	if v := h.p.val; v != nil {
+		var res ps.ValidationResult
+		has := true
+		switch topic {
+		case psBlockTopic:
+			res = v.validateBlock(context.Background(), receiveFrom, msg)
+		case psTxTopic:
+			res = v.validateTx(context.Background(), receiveFrom, msg)
+		case psLtBlockTopic:
+			res = v.validatePeer(context.Background(), receiveFrom, msg)
+		case psBatchTxTopic:
+			res = v.validateBatchTx(context.Background(), receiveFrom, msg)
+		default:
+			has = false
+		}
+		if has {
+			validation = int(res)
+			if res != ps.ValidationAccept {
+				return validation, false
+			}
+		}
+	}
+	// as handleSubMsg
+	if topic == psTxTopic || topic == psBatchTxTopic {
+		return validation, false
+	}
+	sub := &pubSub{broadcastProtocol: h.p}
+	m := sub.newMsg(topic)
+	if err := sub.decodeMsg(raw, nil, m); err != nil {
+		return validation, true
+	}
+	h.p.handleBroadcastReceive(subscribeMsg{topic: topic, value: m, receiveFrom: receiveFrom, publisher: from})
+	return validation, false
+}
+
+// EncodeMsg is the production wire encoding (protobuf + snappy).
+func (h *VerifHandle) EncodeMsg(m types.Message) []byte {
+	var buf []byte
+	return (&pubSub{broadcastProtocol: h.p}).encodeMsg(m, &buf)
+}
+
+// BuildLtBlock is the sender-side construction of a light block.
+func (h *VerifHandle) BuildLtBlock(b *types.Block) *types.LightBlock { return h.p.buildLtBlock(b) }
+
+// Tick makes the named loop run exactly one iteration and returns when that iteration has
+// ended (the loop is back at its select). false: no manual ticker, or the loop did not
+// take the tick / finish within wait.
+func (h *VerifHandle) Tick(loop string, wait time.Duration) bool {
+	deadline := time.Now().Add(wait)
+	key := verifTickKey{h.p.ltB, loop}
+	for {
+		v, ok := verifTickChans.Load(key)
+		if ok {
+			d, _ := verifDoneChans.Load(key)
+			t := time.NewTimer(time.Until(deadline))
+			defer t.Stop()
+			select {
+			case v.(chan time.Time) <- time.Now():
+			case <-t.C:
+				return false
+			}
+			select {
+			case <-d.(chan struct{}):
+				return true
+			case <-t.C:
+				return false
+			}
+		}
+		if time.Now().After(deadline) {
+			return false
+		}
+		time.Sleep(200 * time.Microsecond)
+	}
+}
+
+// Release forgets the tick channels of this instance.
+func (h *VerifHandle) Release() {
+	verifTickChans.Delete(verifTickKey{h.p.ltB, VerifLoopPendBlock})
+	verifTickChans.Delete(verifTickKey{h.p.ltB, VerifLoopBlockReq})
+	verifDoneChans.Delete(verifTickKey{h.p.ltB, VerifLoopPendBlock})
+	verifDoneChans.Delete(verifTickKey{h.p.ltB, VerifLoopBlockReq})
+}
+
+// Pending lists the hex block hashes of the pending light blocks.
+func (h *VerifHandle) Pending() []string {
+	l := h.p.ltB
+	l.pdBlockLock.RLock()
+	defer l.pdBlockLock.RUnlock()
+	var out []string
+	for it := l.pendBlockList.Front(); it != nil; it = it.Next() {
+		out = append(out, hex.EncodeToString(it.Value.(*pendBlock).blockHash))
+	}
+	return out
+}
+
+// Expire makes the pending light block with the given hash older than the pending timeout.
+func (h *VerifHandle) Expire(blockHashHex string) bool {
+	l := h.p.ltB
+	l.pdBlockLock.Lock()
+	defer l.pdBlockLock.Unlock()
+	found := false
+	for it := l.pendBlockList.Front(); it != nil; it = it.Next() {
+		pd := it.Value.(*pendBlock)
+		if hex.EncodeToString(pd.blockHash) == blockHashHex {
+			pd.receiveTimeStamp -= (l.cfg.LtBlockPendTimeout + 1000) * int64(time.Millisecond)
+			found = true
+		}
+	}
+	return found
+}
+
+// SetPendTimeout sets the pending timeout (milliseconds).
+func (h *VerifHandle) SetPendTimeout(ms int64) {
+	l := h.p.ltB
+	l.pdBlockLock.Lock()
+	defer l.pdBlockLock.Unlock()
+	h.p.cfg.LtBlockPendTimeout = ms
+}
+
+// BlockRequests returns the number of queued block requests.
+func (h *VerifHandle) BlockRequests() int {
+	l := h.p.ltB
+	l.blockReqLock.Lock()
+	defer l.blockReqLock.Unlock()
+	return l.blockRequestList.Len()
+}
+
+// AddBlock delivers EventAddBlock (local height announcement) to the production handler.
+func (h *VerifHandle) AddBlock(msg *queue.Message) { h.p.handleAddBlock(msg) }
+
+// Outgoing subscribes to the messages the protocol publishes to the network (a copy of
+// what handlePubMsg sends). Every element is either a published message or a marker.
+type VerifOut struct {
+	Topic  string
+	Msg    types.Message
+	Marker int64
+}
+
+const verifMarkerTopic = "verif-marker"
+
+// SubOutgoing returns a channel of internal publications plus markers.
+func (h *VerifHandle) SubOutgoing() chan interface{} {
+	return h.p.ps.Sub(psBroadcast, verifMarkerTopic)
+}
+
+// PubMarker publishes a marker behind everything published so far.
+func (h *VerifHandle) PubMarker(id int64) { h.p.ps.Pub(id, verifMarkerTopic) }
+
+// DecodeOut converts an element of the SubOutgoing channel.
+func (h *VerifHandle) DecodeOut(v interface{}) VerifOut {
+	switch x := v.(type) {
+	case publishMsg:
+		return VerifOut{Topic: x.topic, Msg: x.msg}
+	case int64:
+		return VerifOut{Marker: x}
+	}
+	return VerifOut{}
+}
+
+// HasValidator tells whether topic validation is enabled for this instance.
+func (h *VerifHandle) HasValidator() bool { return h.p.val != nil }
